@@ -1,2 +1,2 @@
-#include "hist_more.hh"
+#include "hist_fault_ops.hh"
 namespace sim { RunResult hist_execute_hex(const Plan &p) { RunResult r; { HistRun<HexMesh> h(p, r.st); RunResult x = h.run(); x.st = std::move(r.st); return x; } } }
